@@ -552,10 +552,12 @@ def real_cases(ctx):
         anyhf = any(x.get("hf") for x in seas)
         batches.append(dict(pair=rng.choice([["st4", "st4"], ["st4", "st6"]]), nf=(64 if anyhf else rng.choice([36, 48])),
                             fmax=(2.0 if anyhf else rng.choice([0.8, 1.0])), nd=rng.choice([24, 36]), dedt=dedt,
-                            diriter=(rng.random() < 0.15), seas=seas, corpus=False))
+                            diriter=(rng.random() < 0.15), seas=seas, corpus=False,
+                            fgrid=rng.choice(["linear", "linear", "log"])))
     cases = []
     for bt in batches:
         cases.append({"op": "real", "pair": bt["pair"], "nf": bt["nf"], "fmin": C.fx(0.03), "fmax": C.fx(bt["fmax"]),
+                      "fgrid": bt.get("fgrid", "linear"),
                       "nd": bt["nd"], "specs": [sea_payload(s) for s in bt["seas"]],
                       "dedt": ({k: C.fx(v) for k, v in bt["dedt"].items()} if bt["dedt"] else None),
                       "diriter": bt["diriter"], "scan": [C.fx(u) for u in SCAN], "nfield": ctx.n(2, 3), "singles": True})
@@ -588,7 +590,7 @@ def real_finish(ctx, batches, impl):
     sampled = 0
     for bi, (bt, im) in enumerate(zip(batches, impl)):
         base = {"op": "estimate_u10_from_source_terms", "generation": bt["pair"][0], "dissipation": bt["pair"][1],
-                "frequencies": "linspace(0.03,%g,%d)" % (bt["fmax"], bt["nf"]), "directions": "linspace(0,360,%d,endpoint=False)" % bt["nd"],
+                "frequencies": ("linspace(0.03,%g,%d)" if bt.get("fgrid", "linear") == "linear" else "geometric(0.03,%g,%d)") % (bt["fmax"], bt["nf"]), "directions": "linspace(0,360,%d,endpoint=False)" % bt["nd"],
                 "spectra (JONSWAP x raised cosine)": bt["seas"], "rate_of_change": bt["dedt"],
                 "direction_iteration": bt["diriter"]}
         if "error" in im:
@@ -768,7 +770,10 @@ def real_finish(ctx, batches, impl):
                 if not C.close(C.unfx(pt["act"]), mact, 1e-9, 0, C.unfx(pt["act_abs"])):
                     ctx.disagree("active-region dE/dt %r, model %r" % (C.unfx(pt["act"]), mact), rep, is_property_failure=True)
             # ---- non-degeneracy cross-check: a finite result where the scan brackets exactly one root lies in that bracket
-            if len(sc) == 1 and not (sc[0][0] - 0.6 <= u <= sc[0][1] + 0.6):
+            # (a returned wind that itself sits on a sign change of the balance - `crossing` - IS a root: with a strong
+            # rate-of-change spectrum the balance can cross zero more than once, and the 0.5 m/s scan, which carries the
+            # roughness memory like the solver does, then shows only one of the crossings)
+            if len(sc) == 1 and not (sc[0][0] - 0.6 <= u <= sc[0][1] + 0.6) and not crossing:
                 ctx.oracle_fail("returned U10 %r is not at the only sign change of the scanned balance %r" % (u, sc[0]), rep)
     ctx.tally("real:nan-overshoot-into-roughness-failure", len(overshoot))
     rare = len(overshoot) <= max(2, 0.03 * nonzero[0])
